@@ -68,3 +68,69 @@ def race_run(tier, seed, WORK, ROOT, REPO, GOENV):
     out["coverage"]["race_calls"] = calls
     out["coverage"]["race_scenarios"] = sorted(scen)
     return out
+
+
+def wrap_search(tier, seed, WORK, ROOT, REPO, GOENV):
+    """C09: run every formula of the C01J stream in lock-step with the exact twins (driver op jac.wrap) and
+    confirm each reported wrap on the real code (harness op field.exact)."""
+    out = {"coverage": {}, "violations": [], "broken": []}
+    harness = os.path.join(WORK, "harness")
+    driver = os.path.join(ROOT, "lean", ".lake", "build", "bin", "driver")
+    ops_f = os.path.join(WORK, f"wrap.{os.getpid()}.ops")
+    lines = []
+    for g in ("C01J", "C09W"):
+        rc, so, se = _run([harness, "gen", "-prop", g, "-tier", tier, "-seed", str(seed), "-ops", ops_f, "-classes", os.devnull])
+        if rc != 0:
+            out["broken"].append(("wrap-search", "harness gen " + g, (so + se)[-800:]))
+            return out
+        with open(ops_f) as f:
+            for line in f:
+                line = line.rstrip("\n")
+                t = line.split(" ", 1)
+                if line.startswith("jac.wrap"):
+                    lines.append(line)
+                elif len(t) == 2 and t[0].startswith("jac.") and t[0][4:] in ("add", "double", "addv1", "addv2", "addv3", "addv4", "dblv1", "dblv2", "toaffine"):
+                    lines.append("jac.wrap " + t[0][4:] + " " + t[1])
+        os.remove(ops_f)
+    import subprocess
+    from concurrent.futures import ThreadPoolExecutor
+    k = max(1, min(os.cpu_count() or 4, len(lines) // 200 + 1))
+    chunks = [lines[i::k] for i in range(k)]
+
+    def one(ch):
+        p = subprocess.run([driver], input="\n".join(ch) + "\n", stdout=subprocess.PIPE, text=True)
+        return p.stdout.splitlines()
+    with ThreadPoolExecutor(max_workers=k) as ex:
+        res = list(ex.map(one, chunks))
+    wraps = {}
+    nsafe = 0
+    for ch, outl in zip(chunks, res):
+        for ln, o in zip(ch, outl):
+            if o == "ok safe":
+                nsafe += 1
+            elif o.startswith("ok wrap "):
+                wraps.setdefault(o[len("ok wrap "):], ln)
+            else:
+                out["broken"].append(("wrap-search", "driver jac.wrap", (ln[:200] + " -> " + o)[:400]))
+                break
+    out["coverage"]["wrap_formula_runs"] = len(lines)
+    out["coverage"]["wrap_safe_runs"] = nsafe
+    out["coverage"]["wrap_witnesses_in_model"] = len(wraps)
+    if wraps:
+        exact_lines = ["field.exact " + w for w in wraps]
+        p = subprocess.run([harness, "run"], input="\n".join(exact_lines) + "\n", stdout=subprocess.PIPE, text=True)
+        impl = p.stdout.splitlines()
+        confirmed = 0
+        for w, r in zip(wraps, impl):
+            if r == "ok inexact":
+                confirmed += 1
+                if confirmed <= 20:
+                    out["violations"].append({"kind": "impl-vs-spec", "op": "field.exact " + w, "class": "wrap", "impl": r, "model": "ok exact", "expected": "ok exact",
+                                              "reached_from": wraps[w][:3000],
+                                              "note": "this field operation is performed by the formula on the input `reached_from`; on the real code its result differs from exact integer arithmetic (a 32/64-bit word overflowed or underflowed)"})
+            elif r != "ok exact":
+                out["broken"].append(("wrap-search", "harness field.exact", (w[:200] + " -> " + r)[:400]))
+        out["coverage"]["wrap_witnesses_confirmed_on_real_code"] = confirmed
+        if confirmed == 0:
+            out["broken"].append(("wrap-model-only", "jac.wrap", "the regenerated model reports a wrapping operation that the real code does not exhibit: " + next(iter(wraps))[:300]))
+    return out
